@@ -118,7 +118,14 @@ impl Encoder {
             panic!("Encoder::encode - target buffer too small");
         }
 
-        while !self.steps.is_empty() && dest.len() + 4 <= dest.capacity() {
+        // Steps that write nothing (empty strings, empty payloads) are processed even when the
+        // buffer is full; otherwise a packet whose bytes have all been written would still be
+        // reported as incomplete.
+        while let Some(next_step) = self.steps.front() {
+            if dest.len() + 4 > dest.capacity() && !is_empty_encoding_step(next_step, packet) {
+                break;
+            }
+
             let step = self.steps.pop_front().unwrap();
             process_encoding_step(&mut self.steps, step, packet, dest)?;
         }
@@ -593,6 +600,17 @@ fn encode_vli(value: u32, dest: &mut Vec<u8>) -> GneissResult<()> {
     }
 
     Ok(())
+}
+
+fn is_empty_encoding_step(step: &EncodingStep, packet: &MqttPacket) -> bool {
+    match step {
+        EncodingStep::StringSlice(getter, offset) => { getter(packet).len() <= *offset }
+        EncodingStep::BytesSlice(getter, offset) => { getter(packet).len() <= *offset }
+        EncodingStep::IndexedString(getter, index, offset) => { getter(packet, *index).len() <= *offset }
+        EncodingStep::UserPropertyName(getter, index, offset) => { getter(packet, *index).name.len() <= *offset }
+        EncodingStep::UserPropertyValue(getter, index, offset) => { getter(packet, *index).value.len() <= *offset }
+        _ => { false }
+    }
 }
 
 fn process_byte_slice_encoding(bytes: &[u8], offset: usize, dest: &mut Vec<u8>) -> usize {
